@@ -248,7 +248,7 @@ func c11r4(r *R) {
 			okOnce := false
 			if par := fn.Parent(); par != nil {
 				for _, d := range calls(par, nameIs("(*sync.Once).Do")) {
-					if describe(d.Common().Args[0]) == "$0.closeOnce" && describe(d.Common().Args[1]) == "closure:"+fname(fn) {
+					if describe(d.Common().Args[0]) == "$0.closeOnce" && isClosureOf(describe(d.Common().Args[1]), fn) {
 						okOnce = true
 					}
 				}
